@@ -74,7 +74,7 @@ type KnownFinding struct {
 
 var (
 	flagRepo     = flag.String("repo", "/repo", "repository under test")
-	flagHarness  = flag.String("harness", "/verif/harness", "harness directory")
+	flagHarness  = flag.String("harness", baseDir()+"/harness", "harness directory")
 	flagProp     = flag.String("prop", "", "property id")
 	flagTier     = flag.String("tier", "quick", "quick|thorough")
 	flagGroup    = flag.String("group", "", "(dev) harness group")
@@ -82,8 +82,9 @@ var (
 	flagWorkers  = flag.Int("workers", 0, "worker count (default: min(16, NumCPU))")
 	flagSeed     = flag.Int64("seed", 0, "seed (VERIF_SEED)")
 	flagV        = flag.Bool("v", false, "verbose")
-	flagEvidence = flag.String("evidence", "/verif/evidence", "evidence directory")
-	flagKF       = flag.String("kf", "/verif/known_findings.json", "known findings file")
+	flagEvidence = flag.String("evidence", baseDir()+"/evidence", "evidence directory")
+	flagKF       = flag.String("kf", baseDir()+"/known_findings.json", "known findings file")
+	flagWallCap  = flag.Int("wallcap", 0, "cap on every obligation's max_wall_s (calibration runs)")
 	flagParams   = flag.String("params", "", "(dev) K=3,N=2")
 	flagSched    = flag.String("sched", "", "(dev) fifo|all")
 	flagPreempt  = flag.Int("preempt", 0, "(dev) preemption bound")
@@ -93,9 +94,26 @@ var (
 	flagReplay   = flag.String("replay", "", "replay a counterexample file natively")
 	flagNoNative = flag.Bool("nonative", false, "skip native replay validation")
 	flagSolver   = flag.String("solver", "z3", "z3|z3-new|cvc5")
-	flagOut      = flag.String("cexdir", "/verif/cex", "counterexample directory")
+	flagOut      = flag.String("cexdir", baseDir()+"/cex", "counterexample directory")
 	flagEnc      = flag.String("enc", "", "(dev) bv|int")
 )
+
+// baseDir is the directory that holds bin/, harness/, evidence/ (the binary
+// is bin/gosym), so that a snapshot copy of /verif runs against itself.
+func baseDir() string {
+	exe, err := os.Executable()
+	if err != nil {
+		return "/verif"
+	}
+	if r, err := filepath.EvalSymlinks(exe); err == nil {
+		exe = r
+	}
+	d := filepath.Dir(filepath.Dir(exe))
+	if _, err := os.Stat(filepath.Join(d, "harness")); err != nil {
+		return "/verif"
+	}
+	return d
+}
 
 func die(code int, format string, args ...any) {
 	fmt.Printf(format+"\n", args...)
@@ -409,12 +427,19 @@ func cfgOf(b *Bounds) interp.RunConfig {
 		MaxSteps:      b.MaxSteps,
 		TickerBudget:  b.Ticks,
 		MaxConcretize: b.Concretize,
-		MaxWallS:      b.MaxWallS,
+		MaxWallS:      capWall(b.MaxWallS),
 		IntEncoding:   b.Encoding == "int",
 		LabelPrefix:   *flagProp,
 		Params:        b.Params,
 		Solver:        *flagSolver,
 	}
+}
+
+func capWall(w int) int {
+	if *flagWallCap > 0 && (w == 0 || w > *flagWallCap) {
+		return *flagWallCap
+	}
+	return w
 }
 
 func runObligations(prop string, spec PropSpec, obls []Obligation) int {
